@@ -344,7 +344,30 @@ class DivOnly(ast.NodeTransformer):
         return n
 
 
+def _vals2(x):
+    return x.values if _is_df(x) else np.asarray(x)
+
+
+def _same_container(a, b):
+    if type(a) is not type(b) or _vals2(a).shape != _vals2(b).shape:
+        return False
+    return bool(a.columns.equals(b.columns)) if _is_df(a) else True
+
+
+def _colidx(x, c):
+    return int(x.columns.get_loc(c)) if _is_df(x) else int(c)
+
+
+def _valid_col(x, c):
+    return (c in x.columns) if _is_df(x) else 0 <= int(c) < _vals2(x).shape[1]
+
+
 BASE_NS = {
+    # content-level 2-D containers (injectors)
+    "cell": lambda x, i, j: _scalar(_vals2(x)[int(i)][int(j)]),
+    "mrows": lambda x: int(_vals2(x).shape[0]), "mcols": lambda x: int(_vals2(x).shape[1]),
+    "is_frame": _is_df, "same_container": _same_container, "colidx": _colidx, "valid_col": _valid_col,
+    "mcol": lambda x, a, b, c: [_scalar(v) for v in _vals2(x)[int(a):int(b), int(c)]],
     "__cmp": _cmp, "__deep_equal": deep_equal, "__div": _div,
     "first": _first, "size": _size, "count": _count, "count2": _count, "zeros": _zeros, "c_in": _c_in,
     "isinf": lambda x: isinstance(_scalar(x), float) and math.isinf(_scalar(x)),
@@ -373,6 +396,7 @@ BASE_NS = {
     "max": max, "min": min, "len": len, "abs": abs, "range": range, "int": int, "all": all, "any": any,
     "float": float, "sum": sum, "round": round, "bool": bool, "list": list, "tuple": tuple, "isinstance": isinstance,
     "np": np,
+    "recursive": lambda *sig: (lambda f: f),     # marker decorator of recursive spec functions (plain recursion here)
 }
 
 
